@@ -1,13 +1,15 @@
 /-
   C03 — Block raw texts tile the source without loss or overlap; line numbers are true.
 
-  Statements only (helper lemmas: Lemmas/Tile.lean, Lemmas/LexNl.lean, Lemmas/NoRaise.lean).
+  Statements only (helper lemmas: Lemmas/Tile.lean, Lemmas/LexNl.lean, Lemmas/NoRaise.lean,
+  Lemmas/FieldLines.lean).
   `P` ranges over every `PyChars` (CPython's Unicode classes) such that `\w` does not match a
   newline (`WordOK`, checked against the running CPython over all code points on every run).
 -/
 import BibVerif.Lemmas.Tile
 import BibVerif.Lemmas.LexNl
 import BibVerif.Lemmas.NoRaise
+import BibVerif.Lemmas.FieldLines
 namespace Bib.C03
 open Bib
 
@@ -107,6 +109,48 @@ theorem field_line_is_eq_line (s : St) (ty key fk : Str) (fs : List Field) (l : 
   unfold step
   simp [he, hm]
 
+/-- **C03 (where entries and their fields sit).**  For every text: every entry among the returned
+blocks - live, or inside a duplicate-field wrapper - occupies a contiguous run `rawT` of the token
+stream of the input, its raw is the text of that run, its line the number of newlines before the
+run, and reading the run from the left one finds for every field in order: a `,` mark, key tokens
+(text and newlines only), an `=` mark - with the field's key the stripped key text and the field's
+line the entry's line plus the newlines of the run before that `=` (`FieldsAt`). -/
+theorem entry_placed (hP : WordOK P) (s : Str) (bs : List Block) (h : split P s = .ok bs) :
+    ∀ b ∈ bs, Placed P (lex P s) b :=
+  splitToks_placed P (lex P s) (nlTok_lexFrom P hP false _) (eqLit_lexFrom P false _) bs h
+
+/-- **C03 (field lines).**  A field reports the line on which its `=` stands: for every text `s`,
+every field `f` of every returned entry has its own `=` mark in the token stream of `"\n" ++ s`,
+directly preceded by the tokens `kt` of its key (text and newlines only), themselves directly
+preceded by the `,` that separates the field from what comes before; `f.key` is the stripped key
+text and `f.line` is the number of newline characters of the input in front of that `=` (minus the
+newline `Splitter.__init__` prepends).  The second conjunct restates the position in characters. -/
+theorem field_line_true (hP : WordOK P) (s : Str) (bs : List Block) (h : split P s = .ok bs)
+    (b : Block) (hb : b ∈ bs) (e : Entry) (he : entryOf b = some e) (f : Field) (hf : f ∈ e.fields) :
+    ∃ before c kt after,
+      lex P s = before ++ Tok.mark .comma c :: kt ++ Tok.mark .eq ['='] :: after ∧
+      '\n' :: s = flatten (before ++ Tok.mark .comma c :: kt) ++ '=' :: flatten after ∧
+      kt.all isPlainTok = true ∧ f.key = strip P (flatten kt) ∧
+      f.line = nlc (flatten (before ++ Tok.mark .comma c :: kt)) - 1 := by
+  obtain ⟨preT, rawT, postT, h1, _, h3, h4⟩ := entry_placed P hP s bs h b hb e he
+  have hmem : (f.key, f.line) ∈ kl e.fields := by
+    simp only [kl, List.mem_map]; exact ⟨f, hf, rfl⟩
+  obtain ⟨r1, c, kt, l, r2, hr, hpl, hk, hl⟩ := fieldsAt_mem P h4 f.key f.line hmem
+  have hlex : lex P s = (preT ++ r1) ++ Tok.mark .comma c :: kt ++ Tok.mark .eq l :: (r2 ++ postT) := by
+    rw [h1, hr]; simp
+  have hl' : l = ['='] := by
+    have hm : Tok.mark .eq l ∈ lex P s := by rw [hlex]; simp
+    exact eqLit_lexFrom P false _ _ hm l rfl
+  subst hl'
+  refine ⟨preT ++ r1, c, kt, r2 ++ postT, hlex, ?_, hpl, hk, ?_⟩
+  · have := flatten_lexFrom P false ('\n' :: s)
+    rw [show lexFrom P false ('\n' :: s) = lex P s from rfl, hlex] at this
+    rw [← this]
+    simp [flatten_append, flatten_cons_mark]
+  · rw [hl, h3]
+    simp only [flatten_append, nlc_append]
+    omega
+
 /-- non-vacuity (token level, evaluated by the kernel): `@a{k, b, c}` NL `@comment{x}` gives a
 failed block, an implicit comment `, b, c}` and an explicit comment. -/
 example : (splitToks asciiChars
@@ -115,6 +159,17 @@ example : (splitToks asciiChars
      .mark .at "@comment".toList, .mark .lbrace ['{'], .text "x".toList, .mark .rbrace ['}']]).toOption.map
       (fun bs => bs.map fun b => (b.isFailed, b.line, String.ofList b.raw))
     = some [(true, 0, "@a{k, b"), (false, 0, ", c}"), (false, 1, "@comment{x}")] := by
+  decide +kernel
+
+/-- non-vacuity for the field lines (evaluated by the kernel): `@a{k,` NL ` x = 1,` NL NL ` y = 2}`
+on the line after the prepended newline gives fields on lines 1 and 3. -/
+example : (splitToks asciiChars
+    [.mark .nl ['\n'], .mark .at "@a".toList, .mark .lbrace ['{'], .text "k".toList, .mark .comma [','],
+     .mark .nl ['\n'], .text " x ".toList, .mark .eq ['='], .text " 1".toList, .mark .comma [','],
+     .mark .nl ['\n'], .mark .nl ['\n'], .text " y ".toList, .mark .eq ['='], .text " 2".toList,
+     .mark .rbrace ['}']]).toOption.map
+      (fun bs => bs.map fun b => (b.line, (entryOf b).map fun e => e.fields.map fun f => (String.ofList f.key, f.line)))
+    = some [(0, some [("x", 1), ("y", 3)])] := by
   decide +kernel
 
 end Bib.C03
